@@ -931,6 +931,19 @@ OP(cp_pdpub) {
 	for (int i = 0; i < 3; i++) { gt_free(g[i]); }
 }
 OP(pc_param_set_any) { int r = 0; W(r = pc_param_set_any()); out_int(r); ep_curve_get_gen(PR[0]); out_ep(PR[0]); }
+/* selection of another parameter set (possibly interrupted by an allocation failure), then - in run_op, outside
+ * the fault window - the plan's curve is selected again: the fixed probe must give its reference output, i.e. a
+ * failed or completed selection leaves nothing behind that survives the next successful one */
+static int cycle_pending = 0;
+OP(ep_param_cycle) {
+	static const int ids[6] = { NIST_P256, BSI_P256, SM2_P256, SECG_K256, BN_P256, SM9_P256 };
+	int other = ids[B[6]->dp[0] % 6], r = 0;
+	cycle_pending = 1;
+	W(ep_param_set(other); if (err_get_code() == RLC_OK && other == BN_P256 && (B[6]->dp[0] & 64)) r = pc_param_set_any());
+	out_int(other); out_int(r);
+	ep_curve_get_gen(PR[0]); out_ep(PR[0]);
+	ep_mul_gen(PR[1], B[7]); out_ep(PR[1]);
+}
 
 #define E(N, PC) { #N, op_##N, PC }
 static const op_t ops[] = {
@@ -966,7 +979,7 @@ static const op_t ops[] = {
 	E(gt_exp_gen, 1), E(gt_inv_mul, 1), E(pc_map, 1), E(pc_map_sim2, 1), E(pc_map_simn, 1), E(g1_mul_sim_lot, 1), E(g2_mul_sim_lot, 1), E(ep2_norm_sim, 1), E(g1_map, 1), E(g2_map, 1),
 	E(g1_is_valid, 1), E(g2_is_valid, 1), E(gt_is_valid, 1), E(g2_write_read, 1), E(gt_write_read, 1),
 	E(cp_bls, 1), E(cp_bls_gen, 1), E(cp_bbs, 1), E(cp_zss, 1), E(cp_cls, 1), E(cp_pss, 1), E(cp_ibe, 1),
-	E(cp_sokaka, 1), E(cp_pdpub, 1), E(pc_param_set_any, 1),
+	E(cp_sokaka, 1), E(cp_pdpub, 1), E(pc_param_set_any, 1), E(ep_param_cycle, 0),
 };
 #define NOPS ((int)(sizeof(ops) / sizeof(ops[0])))
 
@@ -1099,6 +1112,14 @@ static void run_op(const op_t *op, const uint8_t *seed, size_t seed_len, uint64_
 	WIN_OFF();
 	sim_alloc.fail_at[0] = sim_alloc.fail_at[1] = 0;
 	sim_alloc.fill_on = 0;
+	if (cycle_pending) {
+		/* back to the plan's curve after an excursion to another parameter set */
+		cycle_pending = 0;
+		(void)err_get_code();
+		ep_param_set(cur_curve);
+		if (has_pc) pc_param_set_any();
+		(void)err_get_code();
+	}
 	/* whatever the call reported, every integer object the caller handed in is still a readable object */
 	{
 		volatile size_t acc = 0;
